@@ -142,6 +142,12 @@ func (m *Model) MergedConfig() map[string]*MLeaf {
 			}
 		}
 	}
+	// leaves an orphan delete left on the device are part of the resulting configuration
+	for k, l := range m.OrphanVals {
+		if _, ok := out[k]; !ok {
+			out[k] = l
+		}
+	}
 	return out
 }
 
